@@ -49,10 +49,24 @@ def gen(seed, index):
                         qs.append(["value_at", t2])
                     break
     qs.append(["points"])
+    if rng.random() < 0.12:
+        # decoy stream: before the questions a COPY of the envelope is edited in place and the envelope is split
+        # (both leave the receiver alone): the answers must still be those of the points it was built from
+        pts_, durs_, total_ = env_points(e)
+        qs.append(["decoy", rng.randint(1, max(1, total_ - 1)) if total_ > 1 else 1])
     return ["envq", e] + qs
 
 
+def strip(case):
+    return case[:-1] if case[0] == "envq" and case[-1] and case[-1][0] == "decoy" else case
+
+
+def model_case(case):
+    return strip(case)
+
+
 def compare(case, mo, io):
+    case = strip(case)
     if case[0] == "of_points":
         return None if same(mo, io) else "constructed envelope differs"
     if len(io) > len(mo):
@@ -65,6 +79,7 @@ def compare(case, mo, io):
 
 
 def oracle(case, io, mo):
+    case = strip(case)
     if case[0] == "of_points":
         pts = case[1]
         t0 = int(pts[0][0])
@@ -133,6 +148,7 @@ def known_dis(f, case, msg, io, mo):
 
 
 def nontrivial(case, io):
+    case = strip(case)
     if case[0] != "envq":
         return False
     e = case[1]
@@ -144,6 +160,9 @@ def stats(results):
     c = Counter()
     for r in results:
         case = r["case"]
+        if case != strip(case):
+            c["decoy-first"] += 1
+        case = strip(case)
         c[case[0]] += 1
         if case[0] == "envq":
             c["kind:" + case[1][0]] += 1
@@ -157,6 +176,8 @@ def stats(results):
 
 
 def shrink(case):
+    if case != strip(case):
+        return [strip(case)]
     out = []
     if case[0] == "envq":
         for i in range(2, len(case)):
